@@ -171,6 +171,16 @@ def check_obligations(pid, props_files):
 
 
 # ------------------------------------------------------------------ correspondence
+def _big_stack():
+    # the extracted model recurses over whole buffers: give it the stack the kernel allows
+    import resource
+    try: resource.setrlimit(resource.RLIMIT_STACK, (resource.RLIM_INFINITY, resource.RLIM_INFINITY))
+    except Exception:
+        try:
+            soft, hard = resource.getrlimit(resource.RLIMIT_STACK); resource.setrlimit(resource.RLIMIT_STACK, (hard, hard))
+        except Exception: pass
+
+
 def run_suite(pid, suite, tier, seed, fuzzing=False):
     """Generate + run implementation + run model.  Returns (cases_path, impl_path, model_path).
     The cfg(fuzzing) build writes into its own sub-directory."""
@@ -196,7 +206,7 @@ def run_suite(pid, suite, tier, seed, fuzzing=False):
     for k in range(nsh):
         cf = f"{wd}/{tag}.shard{k}.cases"
         procs.append((k, subprocess.Popen([DRIVER, cf, f"{wd}/{tag}.shard{k}.model", f"{wd}/{tag}.shard{k}.spec"] + (["fuzzing"] if fuzzing else []),
-                                          stdout=subprocess.PIPE, stderr=subprocess.STDOUT)))
+                                          stdout=subprocess.PIPE, stderr=subprocess.STDOUT, preexec_fn=_big_stack)))
     for k, p in procs:
         out, _ = p.communicate(timeout=14400)
         if p.returncode != 0:
